@@ -41,3 +41,41 @@ proofs! {
 [push, sortv, boxed] fn c02_tokens_4() { exact::<4>() }
 
 }
+
+/// byte level: every byte string of length <= L through the real `from_bytes`, against
+/// reference-split + reference recogniser (covers the separator predicate, empty subtags,
+/// leading / trailing separators)
+fn bytes_exact<const L: usize, const K: usize>() {
+    let buf: [u8; L] = crate::k::bytes();
+    let n = crate::k::usize();
+    crate::k::assume(n <= L);
+    #[cfg(not(kani))]
+    eprintln!("INPUT bytes={:?} {:?}", String::from_utf8_lossy(&buf[..n]), &buf[..n]);
+    let (toks, k) = spec::split_ref::<L, K>(&buf, n);
+    let inf = spec::infos(&toks);
+    let (want, _) = spec::parse_langid_info(&inf, 0, k, false);
+    let r = LanguageIdentifier::from_bytes(&buf[..n]);
+    cover!(r.is_ok() && k == 2);
+    cover!(r.is_err() && k == 3);
+    match (&r, &want) {
+        (Ok(li), Ok(m)) => assert!(h::langid_is(li, m), "from_bytes: parsed value equals the reference canonical form"),
+        (Err(e), Err(w)) => {
+            let want_e = match w {
+                LangIdErr::InvalidLanguage => ParserError::InvalidLanguage,
+                LangIdErr::InvalidSubtag => ParserError::InvalidSubtag,
+            };
+            assert!(*e == LanguageIdentifierError::ParserError(want_e), "from_bytes: error kind");
+        }
+        (Ok(_), Err(_)) => assert!(false, "from_bytes accepted an ill-formed language identifier"),
+        (Err(_), Ok(_)) => assert!(false, "from_bytes rejected a well-formed language identifier"),
+    }
+    core::mem::forget(r);
+}
+
+pub mod bytes {
+    use super::*;
+    proofs! {
+    [push, sortv, boxed] fn c02_bytes_3() { bytes_exact::<3, 4>() }
+    [push, sortv, boxed] fn c02_bytes_4() { bytes_exact::<4, 5>() }
+    }
+}
